@@ -43,6 +43,8 @@ CONSTANTS Fam,          \* "R1" | "R2" | "C" | "M" | "G" | "P" : scenario family
           FixIdirOrder, \* FALSE: -idirafter directories precede the system directory
           CompDir,      \* "directive": a computed #include is looked up beside the file containing the directive (tree);
                         \* "macro" (control): beside the file in which the macro was defined (the cwd for -D)
+          OncePrescan,  \* TRUE (control): a file is marked once-only when it is OPENED if it contains a #pragma once line
+                        \* anywhere, even in a group that is skipped
           CacheFirst,   \* TRUE (control): the file-name cache is consulted before the includer's directory
           MaxStack,     \* include depth at which a run is cut off (pinned tree recurses for ever)
           Emit
@@ -66,7 +68,8 @@ Tok(n, d, k) == n \o ToString(d) \o "_" \o ToString(k)
 CShapes == {"ciQself", "ciAself", "ciSself", "ciQmain", "ciAmain", "ciSmain", "ciQcmd", "ciAcmd"}
 ViaOf(sh) == SubSeq(sh, 3, 3)
 SiteOf(sh) == SubSeq(sh, 4, Len(sh))
-Shapes == CShapes \cup {"plain", "guard", "gtrail", "gnest", "gelse", "gtext", "gself", "once", "oncetrail",
+OShapes == {"onceskip", "onceelse", "oncetaken", "oncenest", "onceopt", "oncenopt"}   \* #pragma once inside a conditional group
+Shapes == CShapes \cup OShapes \cup {"plain", "guard", "gtrail", "gnest", "gelse", "gtext", "gself", "once", "oncetrail",
            "next", "incbQ", "incbA", "incbnext"}
 (* `last`: this copy is the last one on the search list, so its #include_next is left out *)
 Content(n, d, sh, last) ==
@@ -86,6 +89,13 @@ Content(n, d, sh, last) ==
        [] sh = "gself"    -> <<IFN, DFN, T(1), Ln("undef", g, ""), END>>
        [] sh = "once"     -> <<Ln("once", "", ""), T(1)>>
        [] sh = "oncetrail"-> <<T(0), Ln("once", "", ""), T(1)>>
+       \* a #pragma once that is not processed has no effect (Level A); one that is, holds from then on
+       [] sh = "onceskip" -> <<T(1), Ln("if0", "", ""), Ln("once", "", ""), END, T(2)>>
+       [] sh = "onceelse" -> <<IF1, T(1), ELS, Ln("once", "", ""), END, T(2)>>
+       [] sh = "oncetaken"-> <<IF1, Ln("once", "", ""), END, T(1)>>
+       [] sh = "oncenest" -> <<IF1, Ln("if0", "", ""), Ln("once", "", ""), END, T(1), END, T(2)>>
+       [] sh = "onceopt"  -> <<Ln("ifdef", g, ""), Ln("once", "", ""), END, T(1)>>      \* depends on a macro the includer changes
+       [] sh = "oncenopt" -> <<IFN, Ln("once", "", ""), ELS, T(0), END, T(1)>>
        [] sh = "next"     -> IF last THEN <<T(1), T(2)>> ELSE <<T(1), IncNext(n), T(2)>>
        [] sh \in CShapes  -> IF SiteOf(sh) = "self" THEN <<T(1), DefInc("b", ViaOf(sh)), CInc("b", ViaOf(sh)), T(2)>>
                              ELSE <<T(1), CInc("b", ViaOf(sh)), T(2)>>
@@ -106,6 +116,8 @@ Render(l) ==
     [] l.k = "undef" -> "#undef " \o l.x
     [] l.k = "endif" -> "#endif"
     [] l.k = "if1" -> "#if 1"
+    [] l.k = "if0" -> "#if 0"
+    [] l.k = "ifdef" -> "#ifdef " \o l.x
     [] l.k = "else" -> "#else"
     [] l.k = "once" -> "#pragma once"
 
@@ -143,7 +155,7 @@ ScenariosOf(fam) ==
             k \in KindSeqs, pa \in (SUBSET Dirs) \ {{}}, pb \in (SUBSET Dirs) \ {{}}, sa \in CShapes, fa \in {"Q", "A"}}
     [] fam = "G" ->     \* guard shapes x every short including program
          {Sc([i \in 1..NOpt |-> "I"], <<>>, {loc}, sa, {}, "plain", m \o <<MainEnd>>) :
-            loc \in {0, 1}, sa \in {"plain", "guard", "gtrail", "gnest", "gelse", "gtext", "gself", "once", "oncetrail"},
+            loc \in {0, 1}, sa \in {"plain", "guard", "gtrail", "gnest", "gelse", "gtext", "gself", "once", "oncetrail"} \cup OShapes,
             m \in SeqsUpTo({Inc("Q", "a"), Inc("A", "a"), Ln("undef", G("a"), ""), Ln("define", G("a"), "")}, 3)}
     [] fam = "P" ->     \* -D / -U / -include on the command line, any order
          {Sc([i \in 1..NOpt |-> "I"], p, {1}, sa, {}, "plain", m \o <<MainEnd>>) :
@@ -178,15 +190,15 @@ AllActive(stk) == \A i \in DOMAIN stk : stk[i].active
 Pop(s) == SubSeq(s, 1, Len(s) - 1)
 CondStep(stk, mac, l) ==
   LET act == AllActive(stk) IN
-  CASE l.k \in {"ifndef", "if1"} ->
-         LET c == act /\ (IF l.k = "if1" THEN TRUE ELSE l.x \notin mac)
+  CASE l.k \in {"ifndef", "if1", "if0", "ifdef"} ->
+         LET c == act /\ (CASE l.k = "if1" -> TRUE [] l.k = "if0" -> FALSE [] l.k = "ifdef" -> l.x \in mac [] OTHER -> l.x \notin mac)
          IN Append(stk, [taken |-> c, active |-> c])
     [] l.k = "else" -> LET t == stk[Len(stk)] IN
          [stk EXCEPT ![Len(stk)] = [taken |-> TRUE, active |-> AllActive(Pop(stk)) /\ ~t.taken]]
     [] l.k = "endif" -> Pop(stk)
 
 (* ---- detect_include_guard (Level I) ------------------------------------- *)
-IsIfLine(l) == l.k \in {"ifndef", "if1"}
+IsIfLine(l) == l.k \in {"ifndef", "if1", "if0", "ifdef"}
 IsDirective(l) == l.k # "text"
 (* index of the line after the #endif matching a conditional opened before `i` (skip_cond_incl2) *)
 RECURSIVE AfterEndif(_, _, _)
@@ -253,7 +265,9 @@ IncludeFileI(sc, m, d, n, nidx) ==
   ELSE IF Has(m.memo, <<d, n>>) /\ Get(m.memo, <<d, n>>) \in m.mac THEN m     \* guard_name && macro defined
   ELSE LET g == DetectGuard(FileLines(sc, d, n))
            m2 == IF g # "" THEN [m EXCEPT !.memo = Put(@, <<d, n>>, g)] ELSE m
-       IN Enter(m2, d, n, nidx)
+           m3 == IF OncePrescan /\ \E i \in DOMAIN FileLines(sc, d, n) : FileLines(sc, d, n)[i].k = "once"
+                 THEN [m2 EXCEPT !.once = @ \cup {<<d, n>>}] ELSE m2      \* control: marked when opened, conditionals ignored
+       IN Enter(m3, d, n, nidx)
 
 (* search_include_paths(filename): <<position or 0, machine>> *)
 SearchI(sc, m, n) ==
@@ -316,7 +330,7 @@ Step(sc, m, lvl) ==
      LET l == ls[fr.pc]
          m1 == [m EXCEPT !.stack[Len(m.stack)].pc = @ + 1]
          act == AllActive(m.cond)
-     IN CASE l.k \in {"ifndef", "if1", "else", "endif"} -> [m1 EXCEPT !.cond = CondStep(@, m.mac, l)]
+     IN CASE l.k \in {"ifndef", "if1", "if0", "ifdef", "else", "endif"} -> [m1 EXCEPT !.cond = CondStep(@, m.mac, l)]
           [] ~act -> m1
           [] l.k = "text" -> [m1 EXCEPT !.out = Append(@, l.x)]
           [] l.k = "define" -> [m1 EXCEPT !.mac = @ \cup {l.x}]
